@@ -1,6 +1,6 @@
 (* C19/Properties.v — the property theorems, nothing else.  Each is closed by [exact lemma]
    and followed by Print Assumptions (captured into the evidence by the check driver). *)
-From Verif Require Import Common.Base C19.Model C19.Proofs1 C19.Proofs2 C19.Proofs3 C19.Proofs4 C19.Proofs5 C19.Proofs6 C19.Proofs7 C19.Proofs8 C19.Proofs9 C19.Proofs10 C19.Proofs11 C19.Proofs12 C19.Translated C19.Checker.
+From Verif Require Import Common.Base C19.Model C19.Proofs1 C19.Proofs2 C19.Proofs3 C19.Proofs4 C19.Proofs5 C19.Proofs6 C19.Proofs7 C19.Proofs8 C19.Proofs9 C19.Proofs10 C19.Proofs11 C19.Proofs12 C19.Translated C19.Checker C19.Proofs13.
 From Verif Require Generated.C19ExpHelper.
 Local Open Scope Z_scope.
 
@@ -145,14 +145,14 @@ Proof. exact pipe_mutation_irrelevant_l. Qed.
    not), every script of pusher outcomes, every history of Sends (single, gated bursts, timer
    flushes), then Shutdown:
      sent + send_failed + enqueue_failed
-       = offered - (items of the requests still unread in a persistent queue)
-         + (items of wait-for-result Sends that returned the export's error).
-   The last term is finding C19-WFR (those items are counted send_failed AND enqueue_failed). *)
+       = offered - (items of the requests still unread in a persistent queue).
+   (Since repo fix af774a6ec a wait-for-result Send that returns its export's error is no longer counted
+   enqueue_failed as well: the former term for finding C19-WFR is gone.) *)
 Theorem exporter_accounting_law : forall o outs ops,
   o_sig o <> Profiles -> valid_batch o -> Forall eop_nonneg ops ->
   let st := run_exporter o outs ops in
   lget (ExpSent (o_sig o)) (s_led st) + lget (ExpFailed (o_sig o)) (s_led st) + lget (ExpEnqFailed (o_sig o)) (s_led st)
-  = s_offered st - qsum (s_queue st) + s_wfr_failed st.
+  = s_offered st - qsum (s_queue st).
 Proof. exact exporter_excess_l. Qed.
 
 (* every Send through a queue (no wait_for_result) either is taken (returns nil: accepted, or a
@@ -170,19 +170,41 @@ Theorem refused_send_is_counted : forall o st n c,
              (k = 3 -> q_block c = true) /\ (k = 1 -> q_block c = false)).
 Proof. exact refused_send_counted_l. Qed.
 
-(* exporter_balance proved for every history on a volatile pipeline (no queue or memory queue,
-   where nothing is ever stored) in which no wait-for-result Send returned an export error:
-   regardless of batching, splitting, retries, partial failures, queue-full refusals and
-   shutdown-interrupted exports.  (Persistent queue: see exporter_accounting_law for what is
-   proved and NOTES.md for what is not; S2 refutes the full statement there.) *)
-Theorem exporter_balance_partial : forall o outs ops,
+(* exporter_balance, FULL, for every volatile pipeline (no queue, or a memory queue, where nothing is ever
+   stored): every configuration (sizer, capacity, wait_for_result, block_on_overflow, sending_queue::batch or
+   legacy batcher, retry, tracing), every script of outcomes, every history, then Shutdown - regardless of
+   batching, splitting, retries, partial failures, queue-full refusals, blocked producers giving up and
+   shutdown-interrupted exports.  (Before repo fix af774a6ec this needed "no wait-for-result failure" and was
+   refuted otherwise: finding C19-WFR, now closed.) *)
+Theorem exporter_balance_volatile : forall o outs ops,
   o_sig o <> Profiles -> valid_batch o -> Forall eop_nonneg ops ->
   is_storage o = false ->
   let st := run_exporter o outs ops in
-  s_wfr_failed st = 0 ->
   lget (ExpSent (o_sig o)) (s_led st) + lget (ExpFailed (o_sig o)) (s_led st) + lget (ExpEnqFailed (o_sig o)) (s_led st)
   = s_offered st.
 Proof. exact exporter_balance_volatile_l. Qed.
+
+(* exporter_balance for EVERY configuration with the single exclusion that remains (finding S2): on a
+   persistent queue no request was kept by a shutdown-class OnDone *)
+Theorem exporter_balance_partial : forall o outs ops,
+  o_sig o <> Profiles -> valid_batch o -> Forall eop_nonneg ops ->
+  let st := run_exporter o outs ops in
+  (is_storage o = false ->
+     lget (ExpSent (o_sig o)) (s_led st) + lget (ExpFailed (o_sig o)) (s_led st) + lget (ExpEnqFailed (o_sig o)) (s_led st) = s_offered st) /\
+  (is_storage o = true -> s_kept st = 0 -> balance o st).
+Proof.
+  exact (fun o outs ops Hs Hb F => conj (fun Hst => exporter_balance_volatile_l o outs ops Hs Hb F Hst)
+                                        (fun Hst => exporter_balance_persistent_general_l o outs ops Hs Hb F Hst)).
+Qed.
+
+(* regression: the former C19-WFR witness (batcher without a queue, 5 items, permanent error) now balances:
+   send_failed = 5, enqueue_failed = 0 *)
+Theorem exporter_wfr_regression :
+  let st := run_exporter opts_wfr [APermanent] [OOffer 5] in
+  o_sig opts_wfr <> Profiles /\ is_wfr opts_wfr = true /\
+  lget (ExpSent Logs) (s_led st) = 0 /\ lget (ExpFailed Logs) (s_led st) = 5 /\ lget (ExpEnqFailed Logs) (s_led st) = 0 /\
+  s_offered st = 5 /\ s_stored st = 0.
+Proof. exact wfr_regression_l. Qed.
 
 (* exporter_balance on a PERSISTENT queue (no batcher in front of it), in the property's own form
    "sent + failed + enqueue_failed = offered - stored": proved for every history in which no export
@@ -191,7 +213,7 @@ Theorem exporter_balance_persistent_partial : forall o outs ops,
   o_sig o <> Profiles -> Forall eop_nonneg ops ->
   is_storage o = true -> batch_cfg o = None ->
   let st := run_exporter o outs ops in
-  s_wfr_failed st = 0 -> s_shut st = 0 ->
+  s_shut st = 0 ->
   balance o st.
 Proof. exact exporter_balance_persistent_l. Qed.
 
@@ -202,7 +224,7 @@ Theorem exporter_persistent_excess : forall o outs ops,
   is_storage o = true -> batch_cfg o = None ->
   let st := run_exporter o outs ops in
   lget (ExpSent (o_sig o)) (s_led st) + lget (ExpFailed (o_sig o)) (s_led st) + lget (ExpEnqFailed (o_sig o)) (s_led st)
-  = s_offered st - s_stored st + s_shut st + s_wfr_failed st.
+  = s_offered st - s_stored st + s_shut st.
 Proof. exact exporter_persistent_excess_l. Qed.
 
 (* PERSISTENT queue, ANY batcher configuration in front of it (none, legacy batcher with merging and
@@ -220,7 +242,7 @@ Proof. exact exporter_stored_general_l. Qed.
 Theorem exporter_balance_persistent_general_partial : forall o outs ops,
   o_sig o <> Profiles -> valid_batch o -> Forall eop_nonneg ops -> is_storage o = true ->
   let st := run_exporter o outs ops in
-  s_wfr_failed st = 0 -> s_kept st = 0 -> balance o st.
+  s_kept st = 0 -> balance o st.
 Proof. exact exporter_balance_persistent_general_l. Qed.
 
 (* ... and in general the excess over offered - stored is EXACTLY the items of the requests kept
@@ -229,7 +251,7 @@ Theorem exporter_persistent_excess_general : forall o outs ops,
   o_sig o <> Profiles -> valid_batch o -> Forall eop_nonneg ops -> is_storage o = true ->
   let st := run_exporter o outs ops in
   lget (ExpSent (o_sig o)) (s_led st) + lget (ExpFailed (o_sig o)) (s_led st) + lget (ExpEnqFailed (o_sig o)) (s_led st)
-  = s_offered st - s_stored st + s_kept st + s_wfr_failed st.
+  = s_offered st - s_stored st + s_kept st.
 Proof. exact exporter_persistent_general_l. Qed.
 
 (* after shutdown nothing is left in the volatile part of the pipeline, and a memory queue is empty *)
@@ -245,17 +267,8 @@ Proof. exact (fun o outs ops Hs Hb => shutdown_end o Hs Hb (fold_left (step o) o
 Theorem exporter_balance_refuted : exists o outs ops,
   o_sig o <> Profiles /\ valid_batch o /\ Forall eop_nonneg ops /\
   let st := run_exporter o outs ops in
-  ~ balance o st /\ s_offered st = 5 /\ s_stored st = 5 /\ lget (ExpFailed Logs) (s_led st) = 5 /\ s_wfr_failed st = 0.
+  ~ balance o st /\ s_offered st = 5 /\ s_stored st = 5 /\ lget (ExpFailed Logs) (s_led st) = 5.
 Proof. exact s2_refuted_l. Qed.
-
-(* ... and with wait_for_result (legacy batcher without a queue) on a volatile pipeline (finding
-   C19-WFR): 5 items, permanent error: send_failed = 5 AND enqueue_failed = 5 *)
-Theorem exporter_balance_wfr_refuted : exists o outs ops,
-  o_sig o <> Profiles /\ valid_batch o /\ Forall eop_nonneg ops /\ is_storage o = false /\
-  let st := run_exporter o outs ops in
-  ~ balance o st /\ s_offered st = 5 /\ s_stored st = 0 /\
-  lget (ExpFailed Logs) (s_led st) = 5 /\ lget (ExpEnqFailed Logs) (s_led st) = 5 /\ s_shut st = 0.
-Proof. exact wfr_refuted_l. Qed.
 
 (* over a whole history (any configuration, script, operations, then Shutdown) the item attributes
    of the recorded export spans add up to exactly the sent / send_failed counters; nothing is recorded
@@ -293,6 +306,29 @@ Proof. exact profiles_refuted_l. Qed.
 (* the decidable clause checker evaluated over every observed case is the Prop-level clause *)
 Theorem clause_checker_sound : forall c, prop_ok c = true <-> prop_clause c.
 Proof. exact prop_ok_spec. Qed.
+
+(* ---- the model's own observations pass the clause checker ---------------------------------------- *)
+
+(* receiver (every history), metrics scraper controller (every history of well-formed scraper results), processor
+   (signals 0..2), pipeline (signals 0..3): the observation built from the MODEL's run the way the harness builds it
+   from the implementation's passes prop_ok - the checker demands nothing the model does not deliver *)
+Theorem model_passes_checker : forall c, wf_case c -> prop_ok (observe c) = true.
+Proof. exact model_passes_checker_l. Qed.
+
+(* the logs scraper controller does not (finding S5): on the witness the checker says false for the model too *)
+Theorem model_scraper_logs_fails_checker :
+  scr_ok 1 [([(14, (0, (0, 0)))], false)] (vec (scr_run true KLogs (scr_ops [([(14, (0, (0, 0)))], false)]))) = false.
+Proof. exact model_scr_logs_fails. Qed.
+
+(* exporter, clause by clause: the capacity clause of the checker for every configuration ... *)
+Theorem model_exporter_capacity_clause : forall cfg, gauge_capacity (eopts_of cfg) = cfg_capacity cfg.
+Proof. exact model_exp_capacity. Qed.
+
+(* ... and "no other instrument moves" for every configuration, script and history (ledger level) *)
+Theorem model_exporter_only_own_counters : forall o outs ops c,
+  is_span_counter c = false -> c <> ExpSent (o_sig o) -> c <> ExpFailed (o_sig o) -> c <> ExpEnqFailed (o_sig o) ->
+  lget c (s_led (run_exporter o outs ops)) = 0.
+Proof. exact run_only_own. Qed.
 
 (* ---- translator obligations: hand-written pieces = what T1 generates from the current source ------ *)
 
@@ -393,7 +429,8 @@ Print Assumptions exporter_balance_persistent_general_partial.
 Print Assumptions exporter_persistent_excess_general.
 Print Assumptions exporter_drained_after_shutdown.
 Print Assumptions exporter_balance_refuted.
-Print Assumptions exporter_balance_wfr_refuted.
+Print Assumptions exporter_balance_volatile.
+Print Assumptions exporter_wfr_regression.
 Print Assumptions gauges_exact_memory.
 Print Assumptions gauges_exact_memory_burst.
 Print Assumptions gauges_exact_persistent_refuted.
@@ -403,6 +440,10 @@ Print Assumptions scrape_op_balance.
 Print Assumptions exporter_profiles_uncounted.
 Print Assumptions exporter_balance_profiles_refuted.
 Print Assumptions clause_checker_sound.
+Print Assumptions model_passes_checker.
+Print Assumptions model_scraper_logs_fails_checker.
+Print Assumptions model_exporter_capacity_clause.
+Print Assumptions model_exporter_only_own_counters.
 Print Assumptions to_num_items_is_translated.
 Print Assumptions obs_end_op_is_translated.
 Print Assumptions batch_validate_is_translated.
